@@ -2,6 +2,7 @@ package main
 
 import (
 	"fmt"
+	"regexp"
 	"sort"
 	"strings"
 
@@ -160,11 +161,28 @@ func leafVariants() []leafDoc {
 			for k, kids := range l.kids {
 				body := l.open + kids + l.close
 				out = append(out, leafDoc{desc: fmt.Sprintf("%s/%s/%d", c.name, l.name, k), src: "<mjml><mj-body>" + c.pre + body + c.post + "</mj-body></mjml>"})
+				// the same with a css-class on the component and on every sub-element, and an inline rule that targets it: markup
+				// paths chosen by "has a class with inlined declarations" (in a column and in a group only)
+				if c.name == "column" || c.name == "group" {
+					classed := classedTag.ReplaceAllStringFunc(body, func(m string) string {
+						if strings.Contains(m, "css-class") {
+							return m
+						}
+						if strings.HasSuffix(m, "/>") {
+							return m[:len(m)-2] + ` css-class="ka"/>`
+						}
+						return m[:len(m)-1] + ` css-class="ka">`
+					})
+					out = append(out, leafDoc{desc: fmt.Sprintf("%s+inline-class/%s/%d", c.name, l.name, k),
+						src: `<mjml><mj-head><mj-style inline="inline">.ka{color:#111111;margin:0}</mj-style></mj-head><mj-body>` + c.pre + classed + c.post + "</mj-body></mjml>"})
+				}
 			}
 		}
 	}
 	return out
 }
+
+var classedTag = regexp.MustCompile(`<mj-(?:social-element|social|navbar-link|navbar|accordion-element|accordion-title|accordion-text|accordion|carousel-image|carousel|text|button|image|divider|spacer|table)(?: [^<>]*)?>`)
 
 // attrSweepDocs: every component in its legal context with every one of its attributes set to a typed non-default value — one
 // attribute at a time and every pair of attributes (markup paths are chosen by attribute combinations: href with usemap,
